@@ -745,9 +745,13 @@ long lp_interval_count_int(const lp_interval_t* I) {
   lp_integer_sub(lp_Z, &n, &n, &m);
   if (lp_integer_sgn(lp_Z, &n) >= 0) {
     if (lp_integer_fits_int(&n)) {
-      result += lp_integer_to_int(&n) + 1;
+      long count = lp_integer_to_int(&n);
       // check for overflow
-      if (result < 0) result = LONG_MAX;
+      if (count >= LONG_MAX - result) {
+        result = LONG_MAX;
+      } else {
+        result += count + 1;
+      }
     } else {
       result = LONG_MAX;
     }
